@@ -20,10 +20,12 @@ import time
 
 ROOT = os.path.dirname(os.path.dirname(os.path.abspath(__file__)))
 SPEC = os.path.join(ROOT, "spec")
-WORK = os.path.join(ROOT, ".work")
-EVID = os.path.join(ROOT, "evidence")
+# the three overrides below exist only for the seeded-change self-test (lib/seedtest.py), which runs the
+# checks against a scratch copy of the repository without touching /repo, /verif/evidence or /verif/.work
+WORK = os.environ.get("VERIF_WORK", os.path.join(ROOT, ".work"))
+EVID = os.environ.get("VERIF_EVID", os.path.join(ROOT, "evidence"))
 REPLAYS = os.path.join(EVID, "replays")
-HARNESS_DIR = os.path.join(ROOT, "harness")
+HARNESS_DIR = os.environ.get("VERIF_HARNESS_DIR", os.path.join(ROOT, "harness"))
 HARNESS_BIN = os.path.join(HARNESS_DIR, "target", "verif", "harness")
 JAR = "/opt/veriftools/tla/tla2tools.jar"
 CM = "/opt/veriftools/tla/CommunityModules-deps.jar"
@@ -67,8 +69,10 @@ def build_harness():
     log("harness built in %.1fs" % (time.time() - t))
 
 
-def _java_cmd(xmx, xss=None, deque=False):
+def _java_cmd(xmx, xss=None, deque=False, gcthreads=None):
     cmd = ["java", "-XX:+UseParallelGC", "-Xmx" + xmx]
+    if gcthreads:
+        cmd.append("-XX:ParallelGCThreads=%d" % gcthreads)
     if xss:
         cmd.append("-Xss" + xss)
     if deque:
@@ -77,6 +81,7 @@ def _java_cmd(xmx, xss=None, deque=False):
     return cmd
 
 
+_BLOB = re.compile(r'^<<"(UNIVERSE|RXCASES|[A-Z]+CASES)", (".*")>>$')
 _ACT = re.compile(r"^<(\w+) line \d+, col \d+ to line \d+, col \d+ of module (\w+)>: (\d+):(\d+)")
 
 
@@ -104,7 +109,7 @@ def tlc_mc(module, cfg, wd, workers=8, xmx="6g", timeout=1500, simulate=None, de
         except subprocess.TimeoutExpired:
             raise ToolError("TLC timed out on %s/%s" % (module, cfg))
     res = {"module": module, "cfg": cfg, "wall_s": round(time.time() - t, 1), "actions": {}, "log": out,
-           "generated": 0, "distinct": 0, "depth": 0, "replays": 0, "error": None, "prints": []}
+           "generated": 0, "distinct": 0, "depth": 0, "replays": 0, "error": None, "prints": [], "universe": None, "blobs": {}}
     fc = open(cases_out, "a") if cases_out else None
     with open(out, errors="replace") as f:
         for line in f:
@@ -115,6 +120,12 @@ def tlc_mc(module, cfg, wd, workers=8, xmx="6g", timeout=1500, simulate=None, de
                     s = s[len('<<"REPLAY", '):-2]
                     fc.write(json.loads(s))
                     fc.write("\n")
+                continue
+            mb = _BLOB.match(line)
+            if mb:
+                res["blobs"][mb.group(1)] = json.loads(json.loads(mb.group(2)))
+                if mb.group(1) == "UNIVERSE":
+                    res["universe"] = res["blobs"]["UNIVERSE"]
                 continue
             if line.startswith('<<"'):
                 res["prints"].append(line.rstrip("\n"))
@@ -140,8 +151,14 @@ def tlc_mc(module, cfg, wd, workers=8, xmx="6g", timeout=1500, simulate=None, de
     if fc:
         fc.close()
     if p.returncode != 0 or res["error"]:
-        tail = subprocess.run(["tail", "-n", "40", out], stdout=subprocess.PIPE, text=True).stdout
-        sys.stdout.write(tail)
+        with open(out, errors="replace") as f:
+            show = 0
+            for line in f:
+                if line.startswith("Error:") and show == 0:
+                    show = 80
+                if show > 0 and not line.startswith('<<"REPLAY"'):
+                    sys.stdout.write(line)
+                    show -= 1
         raise ToolError("TLC reported an error on the specification %s (%s): %s — the design-level model is "
                         "broken; this is a tool error, not a verdict on the code" % (module, cfg, res["error"]))
     log("TLC %s %s: %d generated, %d distinct, depth %d, %d behaviours to replay, %.1fs"
@@ -156,11 +173,16 @@ def require_actions(mc, names):
             raise ToolError("vacuity: action %s of %s was never taken" % (n, mc["module"]))
 
 
-def run_harness(driver, cases, trace, env=None, timeout=3000, args=None):
+def run_harness(driver, cases, trace, env=None, timeout=3000, args=None, universe=None):
     e = dict(os.environ)
     if env:
         e.update(env)
+    if universe is not None:
+        up = cases + ".universe.json"
+        json.dump(universe, open(up, "w"))
+        e["HARNESS_UNIVERSE"] = up
     e.setdefault("VERIF_SEED", str(seed()))
+    e.setdefault("HARNESS_THREADS", "12")
     t = time.time()
     try:
         p = subprocess.run([HARNESS_BIN, driver, cases, trace] + (args or []), env=e, stdout=subprocess.PIPE,
@@ -180,7 +202,7 @@ _TUP = re.compile(r'^<<"(VERDICT|DRIFT|KNOWN|NOTE)", (\d+), "([^"]*)"(?:, (.*))?
 
 def _validate_one(module, cfg, trace, wd, idx, xmx, timeout, env):
     out = os.path.join(wd, "validate-%s-%d.out" % (module, idx))
-    cmd = _java_cmd(xmx, xss="1g", deque=True) + ["-workers", "1", "-metadir", os.path.join(wd, "vmeta-%s-%d" % (module, idx)),
+    cmd = _java_cmd(xmx, xss="1g", deque=True, gcthreads=2) + ["-workers", "1", "-metadir", os.path.join(wd, "vmeta-%s-%d" % (module, idx)),
                                                   "-cleanup", "-noGenerateSpecTE", "-config", cfg, module + ".tla"]
     e = dict(os.environ)
     if env:
